@@ -121,9 +121,6 @@ pub fn execute(scn: &Scn, property: &str) -> RunOutcome {
 
     // C07 rest tracking: values at the first ended observation of the current stint.
     let mut rest_values: Option<Vals> = None;
-    // ... and whether that observation was made inside the float-rounding band around the end
-    // instant (then the comparison with later values is "within float rounding", not bit-exact)
-    let mut rest_in_band = false;
     // history shape for signatures: kinds of states visited (a = animated, u = un-animated)
     let mut history = String::new();
     history.push(if spec.animated(model.cur) { 'a' } else { 'u' });
@@ -537,22 +534,9 @@ pub fn execute(scn: &Scn, property: &str) -> RunOutcome {
                 if v.is_none() {
                     // Inside the band the *instant* at which is_ended flips is not pinned down, but
                     // what is_ended means is: whenever the animator itself says the animation is
-                    // over, the values are the terminal values and stay there. Inside the band
-                    // that is required within float rounding (the evaluation may be one rounding
-                    // short of the end instant: a smooth easing is then within a few hundred ulps
-                    // of its end value), outside bit for bit. The only timelines exempt inside the
-                    // band are those eased by the discontinuous staircase, whose value one
-                    // rounding before the end legitimately is the previous step.
-                    // (likewise a keyframe a hair away from the terminal position: a near-vertical
-                    // ramp right before the end instant); tolerance: oracle::band_tolerance
-                    let band_tol = spec.states[cur].as_ref().and_then(oracle::band_tolerance);
-                    let staircase = band_tol.is_none();
-                    let entered_with = model.entry[model.cur].clone().unwrap_or_else(|| prev.values.clone());
-                    let within_rounding = |m: &MergedSpec, a: &Vals, b: &Vals, extra: &Vals| -> Option<&'static str> {
-                        (0..4)
-                            .find(|&prop| !oracle::close_within_band(m, prop, oracle::get_prop(a, prop), oracle::get_prop(b, prop), oracle::get_prop(extra, prop), band_tol.unwrap_or(0.0)))
-                            .map(|prop| PROP_NAMES[prop])
-                    };
+                    // over, the values are the terminal values and stay there - bit for bit, inside
+                    // the band or not (once ended the animator evaluates the end of the timeline,
+                    // not the instant the clock happens to show).
                     if let Some(rest) = &rest_values {
                         // already ended earlier in this stint
                         if !now.ended {
@@ -563,14 +547,7 @@ pub fn execute(scn: &Scn, property: &str) -> RunOutcome {
                                 format!("is_ended went back to false after {op:?} without a state change"),
                                 format!("phase={after_phase:?}"),
                             ));
-                        } else if let Some(f) = if rest_in_band {
-                            match &spec.states[cur] {
-                                Some(m) if !staircase => within_rounding(m, rest, &now.values, &entered_with),
-                                _ => None,
-                            }
-                        } else {
-                            vals_differ(rest, &now.values)
-                        } {
+                        } else if let Some(f) = vals_differ(rest, &now.values) {
                             v = Some(viol(
                                 "C07",
                                 "values-moved-after-end",
@@ -584,14 +561,8 @@ pub fn execute(scn: &Scn, property: &str) -> RunOutcome {
                             ));
                         }
                         out.count("probe.advance_after_end");
-                        if rest_in_band && !band && v.is_none() {
-                            // past the band: from here on the values rest bit for bit
-                            rest_values = Some(now.values.clone());
-                            rest_in_band = false;
-                        }
                     } else if now.ended {
                         rest_values = Some(now.values.clone());
-                        rest_in_band = band;
                         if band {
                             out.count("probe.reported_ended_inside_rounding_band_of_end_instant");
                         }
@@ -613,7 +584,7 @@ pub fn execute(scn: &Scn, property: &str) -> RunOutcome {
                         // terminal values from the configuration (only once evaluated at/after the
                         // end, i.e. when this observation follows an evaluation in this state)
                         if let (Some(m), Some(Some(u))) = (&spec.states[cur], total) {
-                            let firmly = !(band && staircase);
+                            let firmly = true;
                             if firmly && !m.parts.is_empty() {
                                 for prop in 0..4 {
                                     if let Some(term) = oracle::merged_terminal(m, prop) {
@@ -623,14 +594,7 @@ pub fn execute(scn: &Scn, property: &str) -> RunOutcome {
                                             _ => 0.0,
                                         };
                                         let scale = oracle::float_scale(m, prop, extra);
-                                        let close = if band {
-                                            // terminal value within float rounding (see above)
-                                            let mut t = now.values.clone();
-                                            oracle::set_prop(&mut t, prop, term);
-                                            within_rounding(m, &now.values, &t, &entered_with).is_none()
-                                        } else {
-                                            oracle::prop_close(actual, term, scale, 8.0)
-                                        };
+                                        let close = oracle::prop_close(actual, term, scale, 8.0);
                                         if !close {
                                             v = Some(viol(
                                                 "C07",
